@@ -220,7 +220,7 @@ Definition tr_r_block (le : bool) (sc : script) (t : tower) (b : iblock N) (h : 
   | None => []
   | Some idx =>
       let t1 := set_r_index t0 idx in
-      Seq (tr_check_conf txids h (db_trks t1) t1) ::
+      Par (map (fun m => [m]) (tr_check_conf txids h (db_trks t1) t1)) ::     (* load_penalties_summaries: a HashMap *)
       match check_conf_loop le txids h (db_trks t1) t1 [] with
       | Abort _ _ => []
       | Ok completed t2 =>
